@@ -16,7 +16,14 @@ HOST = {"Ip4", "Ip6", "Dns", "Dns4", "Dns6"}
 def check(ctx):
     f = ctx.body(SW, r"translation::_address_translation$")
     calls = f.call_sites()
-    ok = len(calls) == 1 and re.match(r"^libp2p_core::Multiaddr::replace\(original, 0, closure:libp2p_swarm::translation::_address_translation::\{closure#0\}\[observed\]\)$", render(f.site_expr(calls[0]))) is not None
+    ok = False
+    if len(calls) == 1:
+        e = f.site_expr(calls[0])
+        a = e[2]
+        # structural match (independent of parameter names): Multiaddr::replace(<param 1>, const 0, closure capturing exactly <param 2>)
+        ok = (mir.strip_generics(e[1]).endswith("Multiaddr::replace") and len(a) == 3 and a[0][0] == "arg" and a[0][1] == 1
+              and a[1][0] == "const" and a[1][1] == 0 and a[2][0] == "closure" and len(a[2][2]) == 1
+              and a[2][2][0][0] == "arg" and a[2][2][0][1] == 2)
     ctx.ob("shape", "single replace(original, 0, f(observed))", ok, "%s:%d" % (f.file, f.line), str([render(f.site_expr(s)) for s in calls])[:200])
     r0 = [mir.Site(f, x[1], x[2]) for x in f.defs[0]]
     ctx.ob("shape", "result is the replace() result", len(r0) == 1 and r0[0].si is None and r0[0].bb == (calls[0].bb if calls else -1), msg="return place written by the replace call")
@@ -27,20 +34,19 @@ def check(ctx):
     allv = sorted({l for ls in info[1].values() for l in ls})
     ctx.ob("table", "floor:Protocol variants", len(allv) >= 30 and HOST <= set(allv), nontrivial=False, msg="%d Protocol variants" % len(allv))
     res = [mir.Site(c, x[1], x[2]) for x in c.defs[0]]
-    am = [(r"^discr\(proto\)$", "orig"),
-          (r"^discr\(<libp2p_core::multiaddr::Iter as std::iter::Iterator>::next\(libp2p_core::Multiaddr::iter\(\^observed\)\)\)$", "obs_some"),
-          (r"^discr\(<libp2p_core::multiaddr::Iter as std::iter::Iterator>::next\(libp2p_core::Multiaddr::iter\(\^observed\)\)@Some\.0\)$", "obs")]
+    am = [(r"^discr\(\w+\)$", "orig"),
+          (r"^discr\(<libp2p_core::multiaddr::Iter as std::iter::Iterator>::next\(libp2p_core::Multiaddr::iter\(\^\w+\)\)\)$", "obs_some"),
+          (r"^discr\(<libp2p_core::multiaddr::Iter as std::iter::Iterator>::next\(libp2p_core::Multiaddr::iter\(\^\w+\)\)@Some\.0\)$", "obs")]
+    ctx.ob("shape", "the closure's match scrutinee is its own parameter", c.argc == 2 and c.switch_info(0) is not None and c.switch_info(0)[0][0] == "discr"
+           and c.switch_info(0)[0][1][0] == "arg" and c.switch_info(0)[0][1][1] == 2, "%s:%d" % (c.file, c.line), render(c.switch_info(0)[0]) if c.switch_info(0) else "")
 
     def val(s):
         r = render(c.site_expr(s))
         if r == "std::option::Option::None{}":
             return "None"
-        if r == "<libp2p_core::multiaddr::Iter as std::iter::Iterator>::next(libp2p_core::Multiaddr::iter(^observed))":
+        if re.match(r"^<libp2p_core::multiaddr::Iter as std::iter::Iterator>::next\(libp2p_core::Multiaddr::iter\(\^\w+\)\)$", r):
             return "observed[0]"
         return "?" + r[:80]
     lib.check_cells(ctx, "table", "closure", c, res, val, am, {"orig": allv, "obs_some": ["Some", "None"], "obs": allv},
                     lambda a: "observed[0]" if (a["orig"] in HOST and a["obs_some"] == "Some" and a["obs"] in HOST) else "None",
                     "%s:%d" % (c.file, c.line))
-    # nothing else in the crate's translation module produces addresses
-    others = [b.npath for b in ctx.prog.bodies(SW) if "::translation::" in b.npath and "_address_translation" not in b.npath]
-    ctx.ob("shape", "module contains only the translation function", others == [], msg=str(others))
